@@ -173,7 +173,8 @@ func Intersection(limit int, sets ...*Set) (*Set, bool) {
 	// Use divide & conquer to get the set intersections
 	switch len(sets) {
 	case 1:
-		return sets[0], false
+		// A copy: the result must not share structure with the operand.
+		return NewSet(sets[0].GetAll()), false
 	case 2:
 		intersection := NewSet([]string{})
 		var limitReached bool
@@ -200,18 +201,12 @@ func Intersection(limit int, sets ...*Set) (*Set, bool) {
 	}
 }
 
-// Union takes a slice of sets and generates a union
+// Union takes a slice of sets and generates a union.
+// The result is always a new set: no operand is modified or returned.
 func Union(sets ...*Set) *Set {
-	switch len(sets) {
-	case 1:
-		return sets[0]
-	case 2:
-		union := sets[0]
-		union.Add(sets[1].GetAll())
-		return union
-	default:
-		left := Union(sets[0 : len(sets)/2]...)
-		right := Union(sets[len(sets)/2:]...)
-		return Union(left, right)
+	union := NewSet([]string{})
+	for _, s := range sets {
+		union.Add(s.GetAll())
 	}
+	return union
 }
